@@ -25,3 +25,11 @@ package vip
 //@   atcall (*Client).VerifySingleToken sets ghostVipTokenOK bool (c *Client, tokenID string, tokenValue int, ok bool, err2 error) :: true if ok && err2 == nil && tokenValue == OTPValue
 //@   loop 1 () invariant !ghostVipTokenOK   #C05.vip-code-loop @C05
 //@   ensures ret0 ==> ret1 == nil && ghostVipTokenOK   #C05.vip-code-accepted-only-after-a-token-accepted-it @C05
+// a push is started for the user it is later polled for: the request names that user, and the transaction handed
+// back is the one the service's "push sent" answer (status 6040) carries
+//@ import "io"
+//@ import "text/template"
+//@ func (*Client).StartUserVIPPush
+//@   atcall (*text/template.Template).Execute requires (t *template.Template, wr io.Writer, data any) :: isType[authenticateUserWithPushRequest](data) && asType[authenticateUserWithPushRequest](data).UserId == userID   #C05.push-request-names-the-user @C05
+//@   atcall encoding/xml.Unmarshal sets ghostVipAnswer any (data []byte, v any, err2 error) :: v
+//@   ensures err == nil ==> isType[*authenticateUserWithPushResponseBody](ghostVipAnswer) && asType[*authenticateUserWithPushResponseBody](ghostVipAnswer).Body.VipResponseAuthenticateUserWithPush.Status == "6040" && transactionID == asType[*authenticateUserWithPushResponseBody](ghostVipAnswer).Body.VipResponseAuthenticateUserWithPush.TransactionId   #C05.push-transaction-is-the-answered-one @C05
